@@ -1142,6 +1142,87 @@ C15.cli_rejections = _c15_cli_rejections
 
 # ------------------------------------------------------------------------------ C17
 
+def init_functor_stage(self, key, kinds):
+    """the initialisers of initialization.hpp called directly on a scripted stream of draws (tiny values, zeros and values
+    next to one included), several calls in a row on one generator and one functor object.  What each call must
+    leave is the documented closed form; the model runs the same lines (correspondence)."""
+    rng = self.rng
+    n = 60 if self.tier == "quick" else 600
+    tiny = [0.0, 1e-7, 5e-7, 1e-6, 9.99999e-7, 1.0000001e-6, 0.9999999, 1e-300]
+    cases, meta = [], {}
+    for k in range(n):
+        kind = rng.choice(kinds)
+        assort = rng.random() < 0.5 and kind != "m"
+        K, L, ncalls = rng.randint(1, 4), rng.randint(1, 4), rng.randint(1, 3)
+        nd = rng.randint(3, 40)
+        ds = [rng.choice(tiny) if rng.random() < 0.25 else rng.random() for _ in range(nd)]
+        if kind == "m":
+            N = L = rng.randint(1, 6)
+            els = sorted(rng.sample(range(N), rng.randint(0, N)))
+            rng.shuffle(els)
+            tail = [str(len(els))] + [str(e) for e in els]
+            aff = els
+        else:
+            aff = [rng.choice([rng.random(), rng.random(), 0.0, 1e-7]) for _ in range((K if assort else K * K) * L)]
+            tail = gen.flist(aff)
+        cid = "if%d" % k
+        cases.append(" ".join([cid, "initf", kind, str(int(assort)), str(K), str(L), str(ncalls)] + gen.flist(ds) + tail))
+        meta[cid] = (kind, assort, K, L, ncalls, ds, aff)
+    io, mo = self.correspond("initf", cases)
+    for cid, (kind, assort, K, L, ncalls, ds, aff) in meta.items():
+        o = io.get(cid)
+        if not o or "t0" not in o:
+            continue
+        self.monitor("initialiser calls on scripted draws", ncalls)
+        self.nontrivial(("initf", kind, assort, K, L, ncalls, tuple(ds), tuple(aff)))
+        self.dist("initialiser " + kind + ("/diagonal" if assort else ""))
+        d = lambda t: ds[t % len(ds)]
+        pos = 0
+        prev = [0.0] * (L * K)
+        for i in range(ncalls):
+            got = floats(o["t%d" % i])
+            if kind == "r":
+                if assort:
+                    want = [d(pos + a * K + k2) for a in range(L) for k2 in range(K)]
+                    used = L * K
+                else:
+                    tri = K * (K + 1) // 2
+                    def tp(i2, j2):
+                        lo, hi = min(i2, j2), max(i2, j2)
+                        return lo * K - lo * (lo - 1) // 2 + (hi - lo)
+                    want = [d(pos + a * tri + tp(k2, q)) for a in range(L) for q in range(K) for k2 in range(K)]
+                    used = L * tri
+            elif kind == "f":
+                if assort:
+                    want = [aff[a * K + k2] + ref.NOISE * d(pos + a * K + k2) for a in range(L) for k2 in range(K)]
+                    used = L * K
+                else:
+                    want = [aff[a * K * K + q * K + k2] + ref.NOISE * d(pos + a * K * K + k2 * K + q)
+                            for a in range(L) for q in range(K) for k2 in range(K)]
+                    used = L * K * K
+            else:
+                N, els = L, aff
+                want = list(prev)
+                for k2 in range(K):
+                    for n2, j in enumerate(els):
+                        want[k2 * N + j] = d(pos + k2 * len(els) + n2)
+                used = K * len(els)
+                prev = want
+            pos += used
+            bad = []
+            if got != want:
+                bad.append("tensor after the call is %s, documented start is %s" % (got[:8], want[:8]))
+            if int(o["pos%d" % i][0]) != pos:
+                bad.append("%s draws consumed so far, documented %d" % (o["pos%d" % i][0], pos))
+            if bad:
+                self.violate(key, "initialiser %s%s, K=%d L=%d, call %d of %d on one generator: %s"
+                             % ({"r": "init_symmetric_tensor_random", "f": "init_symmetric_tensor_from_initial", "m": "init_tensor_rows_random"}[kind],
+                                " (diagonal tensor)" if assort else "", K, L, i + 1, ncalls, "; ".join(bad)),
+                             {"kind": kind, "assortative": assort, "K": K, "L_or_rows": L, "draws": ds, "tensor_or_rows": aff, "call": i,
+                              "case": [c for c in cases if c.startswith(cid + " ")][0]})
+                break
+
+
 class C17(Check):
     pid = "C17"
     lean_modules = ["MTProps.C17", "MTProps.CodeRun", "MTProps.CodeInit"]
@@ -1162,6 +1243,8 @@ class C17(Check):
             self.monitor("stream comparisons")
             if floats(o["d"]) != want:
                 self.violate("stream", "uniform stream for seed %d differs from mt19937/uniform[0,1)" % s, {"seed": s})
+        # (i') the initialisers themselves on scripted draws (values at and below 1e-6, zero, next to one)
+        init_functor_stage(self, "initialiser-on-scripted-draws", ["r", "r", "m", "f"])
         # (ii) starts of real runs: multiset per realization == i-th consecutive segment
         # a third of the calls hand in non-zero output containers: starts must not depend on them
         runs = {"in%d" % k: random_run(rng, tr=1, variants=ALL_VARIANTS, r=rng.randint(1, 5), maxit=1,
@@ -1253,6 +1336,8 @@ class C18(Check):
     lean_modules = ["MTProps.C18"]
 
     def body(self):
+        # where the initialiser puts the entries of a caller-supplied tensor (every call of a functor object, not only the first)
+        init_functor_stage(self, "initial-tensor-entries-misplaced", ["f"])
         D = 6
         cases = ["i%d_%d_%d idx %d %d %d" % (R, Cc, T, R, Cc, T) for R in range(1, D + 1) for Cc in range(1, D + 1) for T in range(1, D + 1)]
         io, mo = self.correspond("idx", cases)
